@@ -73,8 +73,26 @@ def skeletons(nmin, nmax, history=True, final=True, require=None, max_hist=1):
                 continue
             if require == 'multihist' and not _has_multi_hist(t):
                 continue
+            if require == 'nested-orth' and not has_nested_orth(t):
+                continue
+            if require == 'hd-under-orth' and not has_hd_under_orth(t):
+                continue
             out.append(t)
     return out
+
+
+def has_nested_orth(t, under=False):
+    """an orthogonal state somewhere below another orthogonal state"""
+    if t[0] == 'O' and under:
+        return True
+    return any(has_nested_orth(c, under or t[0] == 'O') for c in t[1])
+
+
+def has_hd_under_orth(t, under=False):
+    """a deep history state somewhere below an orthogonal state"""
+    if t[0] == 'HD' and under:
+        return True
+    return any(has_hd_under_orth(c, under or t[0] == 'O') for c in t[1])
 
 
 def _has_multi_hist(t):
